@@ -324,6 +324,12 @@ func (s *configurationStore) UpdateStatus(ctx context.Context, configuration *co
 	configuration.Updated = time.Now()
 	configuration.Status.Applied.Values = nil
 
+	// The committed values live in their own map: a copy of them inside the record goes stale with the next
+	// commit, and Get would lay the map's entries over it and bring back entries the commit removed.
+	values := configuration.Values
+	configuration.Values = nil
+	defer func() { configuration.Values = values }()
+
 	// Update the entry in the underlying map primitive using the configuration version
 	// as an optimistic lock.
 	entry, err := s.configurations.Update(ctx, configuration.ID, configuration, _map.IfVersion(primitive.Version(configuration.Version)))
